@@ -25,36 +25,37 @@ var Root = func() string {
 
 type Violation struct {
 	Property string         `json:"property"`
-	Kind     string         `json:"kind"`      // short machine-readable class, matched against known findings
-	Subject  string         `json:"subject"`   // type / primitive / scenario
-	Detail   string         `json:"detail"`    // human-readable
-	Replay   map[string]any `json:"replay"`    // everything needed to re-execute
+	Kind     string         `json:"kind"`    // short machine-readable class, matched against known findings
+	Subject  string         `json:"subject"` // type / primitive / scenario
+	Detail   string         `json:"detail"`  // human-readable
+	Replay   map[string]any `json:"replay"`  // everything needed to re-execute
 	Path     string         `json:"-"`
 	Known    string         `json:"known,omitempty"`
 }
 
 type Run struct {
-	mu           sync.Mutex
-	Property     string
-	Tier         string
-	Seed         int64
-	start        time.Time
-	Evaluations  int64
-	distinct     map[uint64]struct{}
-	States       map[uint64]struct{}
-	Transitions  int64
-	Traces       int64
-	Samples      []any
-	Rule         string
-	Exhaustive   bool
-	Caps         []string
-	Extra        map[string]any
-	Assumptions  []string
-	violations   []*Violation
-	knownHits    map[string]int
-	known        []knownFinding
-	maxViolation int
-	outcomes     map[string]map[string]struct{}
+	mu               sync.Mutex
+	Property         string
+	Tier             string
+	Seed             int64
+	start            time.Time
+	Evaluations      int64
+	distinct         map[uint64]struct{}
+	States           map[uint64]struct{}
+	Transitions      int64
+	Traces           int64
+	Samples          []any
+	Rule             string
+	Exhaustive       bool
+	Caps             []string
+	Extra            map[string]any
+	Assumptions      []string
+	violations       []*Violation
+	knownHits        map[string]int
+	known            []knownFinding
+	maxViolation     int
+	distinctOverride int64
+	outcomes         map[string]map[string]struct{}
 }
 
 type knownFinding struct {
@@ -187,6 +188,13 @@ func (r *Run) Outcome(scenario, outcome string) {
 	r.mu.Unlock()
 }
 
+// SetDistinct sets the distinct / states counts measured elsewhere (e.g. summed over worker processes).
+func (r *Run) SetDistinct(n int64) {
+	r.mu.Lock()
+	r.distinctOverride = n
+	r.mu.Unlock()
+}
+
 func (r *Run) Sample(s any) {
 	r.mu.Lock()
 	if len(r.Samples) < 12 {
@@ -262,12 +270,16 @@ func (r *Run) Finish() int {
 		v.Path = filepath.Join(Root, "replays", name)
 		os.WriteFile(v.Path, b, 0o644)
 	}
+	nd, ns := int64(len(r.distinct)), int64(len(r.States))
+	if r.distinctOverride > 0 {
+		nd, ns = r.distinctOverride, r.distinctOverride
+	}
 	cov := map[string]any{
 		"evaluations":                   r.Evaluations,
-		"distinct_nontrivial":           len(r.distinct),
+		"distinct_nontrivial":           nd,
 		"rule":                          r.Rule,
 		"samples":                       r.Samples,
-		"states":                        len(r.States),
+		"states":                        ns,
 		"transitions":                   r.Transitions,
 		"traces_validated_against_impl": r.Traces,
 		"exhaustive":                    r.Exhaustive,
@@ -326,7 +338,7 @@ func (r *Run) Finish() int {
 		fmt.Printf("KNOWN-FINDING: property=%s %s (%d cases)\n", r.Property, k, r.knownHits[k])
 	}
 	fmt.Printf("%s %s: evaluations=%d distinct=%d states=%d transitions=%d traces=%d exhaustive=%v wall=%.1fs\n",
-		r.Property, r.Tier, r.Evaluations, len(r.distinct), len(r.States), r.Transitions, r.Traces, r.Exhaustive, wall)
+		r.Property, r.Tier, r.Evaluations, nd, ns, r.Transitions, r.Traces, r.Exhaustive, wall)
 	if len(r.violations) == 0 {
 		return 0
 	}
